@@ -25,9 +25,9 @@ RS = RuleSet(
 
 PERFORM = 'yash_semantics::redir::perform'
 OPEN_AND_MOVE = 'yash_semantics::redir::open_and_move'
-CLOSE = ['yash_env::system::Close::close', '*::Close::close']
-DUP = ['yash_env::system::Dup::dup']
-OPEN = ['yash_env::system::Open::open', 'yash_env::system::Open::open_tmpfile']
+CLOSE = ['*::Close::close', '*::Close::close']
+DUP = ['*::Dup::dup']
+OPEN = ['*::Open::open', '*::Open::open_tmpfile']
 
 
 def _await_through():
@@ -70,12 +70,12 @@ def r1b(cx):
     F = cx.F
     body = F.main_body('yash_semantics::redir::RedirGuard::<\'e, S>::perform_redir')
     cx.fn(body.fn)
-    pushes = Q.find_calls(body, ['*::Vec::<T, A>::push', 'std::vec::Vec::<T, A>::push'])
+    pushes = Q.find_calls(body, ['*::Vec::<T, A>::push', 'alloc::vec::Vec::<T, A>::push'])
     cx.require(len(pushes) == 1, 'expected one saved_fds.push in perform_redir, found %d' % len(pushes))
     pb, pt = pushes[0]
     cx.site('%s: saved_fds.push at %s' % (body.fn, body.loc(pt)))
     # every Return reached through an Ok aggregate passes the push
-    oks = [blk for blk, j, s in Q.find_aggregates(body, 'std::result::Result', 'Ok')]
+    oks = [blk for blk, j, s in Q.find_aggregates(body, 'core::result::Result', 'Ok')]
     cx.require(oks, 'no Ok(..) construction in perform_redir')
     for ob in oks:
         cx.site('%s: Ok(..) in bb%d' % (body.fn, ob))
@@ -98,7 +98,7 @@ def _owned_or_closed(cx, fn, acquire_pats, n_expected):
         def release(tainted):
             rel = Q.calls_with_tainted_arg(body, CLOSE, tainted)
             rel |= Q.aggregates_with_tainted_op(body, 'yash_semantics::redir::FdSpec', tainted, 'Owned')
-            rel |= Q.aggregates_with_tainted_op(body, 'std::result::Result', tainted, 'Ok')
+            rel |= Q.aggregates_with_tainted_op(body, 'core::result::Result', tainted, 'Ok')
             return rel
         paths, tainted, rel, absent = Q.resource_leak_paths(F, body, b, t['dest']['l'], release,
                                                             through_calls=_await_through())
@@ -122,7 +122,7 @@ def r2b(cx):
     F = cx.F
     body = F.main_body(OPEN_AND_MOVE)
     cx.fn(body.fn)
-    dup2 = Q.find_calls(body, ['yash_env::system::Dup::dup2'])
+    dup2 = Q.find_calls(body, ['*::Dup::dup2'])
     cx.require(len(dup2) == 1, 'expected one dup2 in open_and_move')
     db, dt = dup2[0]
     closes = Q.find_calls(body, ['yash_semantics::redir::FdSpec::close'])
@@ -138,7 +138,7 @@ def r2b(cx):
 @RS.rule('C09.R4', 'K-TYPE+K-CALLERS', 'restoration is structural: Drop for RedirGuard undoes; permanence only via exec')
 def r4(cx):
     F = cx.F
-    drops = [i for i in F.impls if i.get('trait_def') == 'std::ops::Drop'
+    drops = [i for i in F.impls if i.get('trait_def') == 'core::ops::drop::Drop'
              and i.get('self_adt') == 'yash_semantics::redir::RedirGuard']
     cx.require(len(drops) == 1, 'impl Drop for RedirGuard not found')
     dfn = drops[0]['items'][0]['def']
@@ -152,7 +152,7 @@ def r4(cx):
     # undo_redirs: dup2(save, original) then close(save), or close(original)
     ub = F.body("yash_semantics::redir::RedirGuard::<'e, S>::undo_redirs")
     cx.fn(ub.fn)
-    d2 = Q.find_calls(ub, ['yash_env::system::Dup::dup2'])
+    d2 = Q.find_calls(ub, ['*::Dup::dup2'])
     cl = Q.find_calls(ub, CLOSE)
     cx.site('%s: %d dup2, %d close' % (ub.fn, len(d2), len(cl)))
     if len(d2) < 1 or len(cl) < 2:
@@ -163,12 +163,12 @@ def r4(cx):
         if not any(ub.dominates(d2[0][0], c) for c, _ in cl):
             cx.violation(ub.fn, 'undo-order', 'no close is dominated by the dup2 that restores the descriptor',
                          loc=ub.loc(d2[0][1]))
-    rev = Q.find_calls(ub, ['*::Iterator::rev', 'std::iter::Iterator::rev'])
+    rev = Q.find_calls(ub, ['*::Iterator::rev', 'core::iter::traits::iterator::Iterator::rev'])
     if not rev:
         cx.violation(ub.fn, 'undo-not-reversed', 'undo_redirs must restore in reverse order of application',
                      loc=ub.loc(ub.d))
     # nobody forgets a guard
-    forget = F.callers_of(lambda names, t: any(n in ('std::mem::forget', 'core::mem::forget') or
+    forget = F.callers_of(lambda names, t: any(n in ('core::mem::forget', 'core::mem::forget') or
                                                n.endswith('ManuallyDrop::<T>::new') for n in names)
                           and 'RedirGuard' in ' '.join(t.get('at', [])))
     cx.site('mem::forget/ManuallyDrop::new on RedirGuard: %d sites' % len(forget))
